@@ -36,6 +36,7 @@ def err_blocks(body):
 
 def run(ctx):
     n_keys(ctx)
+    n_wire(ctx)
     prog = ctx.prog()
 
     # ---------------------------------------------------------------- N-DUP
@@ -399,3 +400,92 @@ def n_keys(ctx):
             ctx.require(False, "N-KEYS: unrecognised key parser %s: no verdict" % S.term_str(keyp)[:80])
     (ctx.bad if probs else ctx.ok)("N-KEYS", "N-KEYS:arguments", ab.span, "; ".join(probs[:2]) if probs else
         "the key parser %s accepts all %d option names the generator reads (%s, ...)" % (S.term_str(keyp)[:50], len(keys), ", ".join(sorted(keys)[:5])))
+
+
+# ---------------------------------------------------------------------------------------------------- N-WIRE
+# Which declared argument fills which slot of the application that a builder returns.  The table is the meaning of the
+# argument names themselves (local_port is the port of the local end, ...); confirmed by reading the four builders.
+WIRE = {
+    "send_message_builder": ("Endpoint", {"address": {"to"}, "port": {"port"}}),
+    "capture_builder": ("Endpoint", {"address": {"ip"}, "port": {"port"}}),
+    "forward_message_builder": ("Endpoints", {"local.address": {"ip"}, "local.port": {"local_port"}, "remote.address": {"to"}, "remote.port": {"remote_port"}}),
+    "ping_pong_builder": ("Endpoints", {"local.address": {"ip"}, "local.port": {"local_port"}, "remote.address": {"to"}, "remote.port": {"remote_port"}}),
+}
+ARGS = {
+    "send_message_builder": {("send_message", "new", 0): ({"message"}, True)},
+    "capture_builder": {("capture", "new", 1): ({"message_count"}, False), ("capture", "new_msg", 1): ({"message"}, True),
+                        ("capture", "build", 2): ({"message_count"}, False), ("capture", "build_msg", 2): ({"message"}, True)},
+}
+UTIL = "elvis_core::protocols::utility::"
+
+
+def _option_keys(t):
+    """The argument names whose values flow into term t: string keys of HashMap::get(app.options, "<key>")."""
+    from .. import symx as S
+    out = set()
+    for c in S.atoms(t, lambda x: x[0] == "call" and x[1].endswith("::get") and len(x[2]) == 2 and x[2][1][0] == "str"
+                     and x[2][0][0] == "field" and x[2][0][2] == "options"):
+        out.add(c[2][1][1])
+    return out
+
+
+def n_wire(ctx):
+    from .. import symx as S
+    prog = ctx.prog()
+    inline = tuple(b.key for b in prog.bodies.values() if b.kind == "method" and b.self_ty is not None
+                   and prog_adt_name(b) in (UTIL + "Endpoint", UTIL + "Endpoints") and not b.derived and b.name in ("new", "reverse"))
+    for fn, (adt, slots) in sorted(WIRE.items()):
+        cands = [b for b in prog.bodies.values() if b.key.endswith("application_generator::" + fn)]
+        ctx.require(len(cands) == 1, "builder %s not found" % fn)
+        b = cands[0]
+        try:
+            ex = S.Extractor(prog, inline, effects=True, max_nodes=400000)
+            t = ex.run(b, S.params_of(b))
+        except S.Unsupported as e:
+            ctx.bad("N-WIRE", "N-WIRE:%s" % fn, b.span, "the builder cannot be reduced to a formula (%s)" % e)
+            continue
+        aggs = set()
+        for _c, leaf in S.ok_paths(t, lambda x: x[0] not in ("stop", "never", "unreachable")):
+            for a in S.atoms(leaf, lambda x: x[0] == "agg" and x[1] == UTIL + adt + "::" + adt):
+                aggs.add(a)
+        probs = []
+        if not aggs:
+            probs.append("no %s value reaches the application returned" % adt)
+        for a in sorted(aggs, key=repr):
+            for slot, want in sorted(slots.items()):
+                v = a
+                for part in slot.split("."):
+                    ak = v[1].rsplit("::", 1)[0] if v[0] == "agg" else None
+                    names = [f["name"] for f in prog.adts[ak]["variants"][0]["fields"]] if ak in prog.adts else []
+                    if part not in names:
+                        v = None
+                        break
+                    v = v[2][names.index(part)]
+                if v is None:
+                    probs.append("%s.%s is not built field by field" % (adt, slot))
+                    continue
+                got = _option_keys(v)
+                if got != want:
+                    probs.append("%s.%s is filled from the argument%s %s, the description says %s" % (
+                        adt, slot, "" if len(got) == 1 else "s", ", ".join("'%s'" % g for g in sorted(got)) or "(none)", ", ".join("'%s'" % g for g in sorted(want))))
+        # the other declared arguments: (module of the constructor, constructor, argument position) -> argument name;
+        # exact=False where the builder has a default when the argument is absent
+        seen = 0
+        for (mod, ctor, ix), (want, exact) in sorted(ARGS.get(fn, {}).items()):
+            for _c, leaf in S.ok_paths(t, lambda x: x[0] not in ("stop", "never", "unreachable")):
+                for c in S.atoms(leaf, lambda x: x[0] == "call" and ("::%s::" % mod) in x[1] and x[1].endswith("::" + ctor) and len(x[2]) > ix):
+                    got = _option_keys(c[2][ix])
+                    seen += 1
+                    if (got != want) if exact else (not got <= want):
+                        probs.append("argument %d of %s::%s is filled from %s, the description says %s" % (
+                            ix, mod, ctor, ", ".join("'%s'" % g for g in sorted(got)) or "(none)", ", ".join("'%s'" % g for g in sorted(want))))
+        ctx.require(seen >= len(ARGS.get(fn, {})), "N-WIRE: constructor calls of %s not found (%d)" % (fn, seen))
+        probs = sorted(set(probs))
+        (ctx.bad if probs else ctx.ok)("N-WIRE", "N-WIRE:%s" % fn, b.span, "; ".join(probs[:3]) if probs else
+            "%d %s value(s): %s" % (len(aggs), adt, ", ".join("%s<-'%s'" % (k, "".join(v)) for k, v in sorted(slots.items()))))
+    ctx.floor("N-WIRE", 4)
+
+
+def prog_adt_name(b):
+    st = b.types[b.self_ty]
+    return st.get("d") if st.get("k") == "adt" else None
